@@ -475,10 +475,10 @@ theorem noJoin_step (esc : Char → Str) (m w : Str) (rest : List (Str × Str)) 
         rw [← map_fill_cons]
         exact hnj.1 x (hsub x hx)
 
-theorem replaceVars_cons (t m w : Str) (rest : List (Str × Str)) :
-    replaceVars t ((m, w) :: rest) = replaceVars (replaceAll1 '@' m w t) rest := rfl
+theorem replaceSeq_cons (t m w : Str) (rest : List (Str × Str)) :
+    replaceSeq t ((m, w) :: rest) = replaceSeq (replaceAll1 '@' m w t) rest := rfl
 
-theorem replaceVars_nil (t : Str) : replaceVars t [] = t := rfl
+theorem replaceSeq_nil (t : Str) : replaceSeq t [] = t := rfl
 
 /-- **Sequential = simultaneous in the item view.**  Replacing `@name` by its value, name after name in a
 list sorted by descending byte length, turns the rendering of an item list into the rendering of the list with
@@ -487,16 +487,16 @@ theorem foldl_replace_render (esc : Char → Str) (vs : List (Str × Str)) (is :
     (hsorted : Sorted vs) (hnames : ∀ p ∈ vs, '@' ∉ p.1) (hvals : ∀ p ∈ vs, '@' ∉ p.2)
     (hclean : Clean esc is) (hrefs : ∀ n, Item.ref n ∈ is → n ∈ names vs)
     (hnj : NoJoinP esc vs is) :
-    replaceVars (render esc is) vs = render esc (is.map (fill vs)) := by
+    replaceSeq (render esc is) vs = render esc (is.map (fill vs)) := by
   induction vs generalizing is with
   | nil =>
-    rw [replaceVars_nil, show (fill []) = id from funext fill_nil]; simp
+    rw [replaceSeq_nil, show (fill []) = id from funext fill_nil]; simp
   | cons p rest ih =>
     obtain ⟨m, w⟩ := p
     have hm : '@' ∉ m := hnames (m, w) (by simp)
     have hw : '@' ∉ w := hvals (m, w) (by simp)
     have hsep := sep_of_noJoin esc m w rest is hsorted hm hrefs hnj
-    rw [replaceVars_cons, replace_render esc m w is hclean hsep]
+    rw [replaceSeq_cons, replace_render esc m w is hclean hsep]
     have hclean' : Clean esc (is.map (fill1 m w)) := by
       refine ⟨?_, ?_, ?_⟩
       · intro c hc
@@ -1027,5 +1027,81 @@ theorem sortVars_perm {β : Type} (l l' : List (Str × β)) (hperm : l.Perm l') 
     have hp' : p ∈ l := (mem_sortBy p l).mp hp
     have hq' : q ∈ l := hperm.mem_iff.mpr ((mem_sortBy q l').mp hq)
     exact eq_of_name_eq l hnd p q hp' hq' (varBefore_total _ _ h2 h1)
+
+/-! ### The one-pass `StaticOrDynamic::replace` (repair 9f65cbb) is the simultaneous substitution -/
+
+/-- On a list sorted longest first, the first entry whose name fits is the LONGEST name that fits, with the value of
+the first entry of that name. -/
+theorem firstMatch_sorted (l : List (Str × Str)) (hs : Sorted l) (s : Str) :
+    firstMatch l s = (longest (names l) s).bind fun n => (l.lookup n).map fun v => (n, v) := by
+  induction l with
+  | nil => simp [firstMatch, names, longest]
+  | cons p rest ih =>
+    obtain ⟨k, v⟩ := p
+    have hp := List.pairwise_cons.mp hs
+    have ih' := ih hp.2
+    simp only [firstMatch, names, List.map_cons, longest]
+    simp only [names] at ih'
+    cases hpre : pre k s with
+    | true =>
+      simp only [if_true]
+      cases hl : longest (rest.map (·.1)) s with
+      | none => simp [hpre]
+      | some b =>
+        have hb := longest_some hl
+        obtain ⟨q, hq, hqb⟩ := List.mem_map.mp hb.1
+        have hle : blen b ≤ blen k := by rw [← hqb]; exact hp.1 q hq
+        by_cases hlt : blen b < blen k
+        · simp [hpre, hlt]
+        · have heq : b = k := prefix_eq_of_blen_eq hb.2 (pre_iff.mp hpre) (by omega)
+          simp [hpre, hlt, heq]
+    | false =>
+      simp only [Bool.false_eq_true, if_false, ih']
+      cases hl : longest (rest.map (·.1)) s with
+      | none => simp [hpre]
+      | some b =>
+        have hb := longest_some hl
+        have hne : b ≠ k := by
+          intro e; rw [e] at hb
+          exact (pre_false_iff.mp hpre) hb.2
+        have : (b == k) = false := by simpa using hne
+        simp [hpre, List.lookup_cons, this]
+
+theorem firstMatch_sortBy (before : Str → Str → Bool) (hb : LawfulBefore before) (vs : List (Str × Str)) (s : Str) :
+    firstMatch (sortBy before vs) s = (longest (names vs) s).bind fun n => (vs.lookup n).map fun v => (n, v) := by
+  rw [firstMatch_sorted _ (sorted_sortBy hb vs), longest_congr (fun m => mem_names_sortBy vs m) s]
+  cases longest (names vs) s with
+  | none => rfl
+  | some n => simp [lookup_sortBy hb]
+
+theorem lookup_some_of_mem_names {β : Type} (l : List (Str × β)) (n : Str) (h : n ∈ names l) :
+    ∃ v, l.lookup n = some v := by
+  have := (mem_names_iff_lookup l n).mp h
+  cases hl : l.lookup n with
+  | none => rw [hl] at this; simp at this
+  | some v => exact ⟨v, rfl⟩
+
+/-- The scan over the sorted list renders the parsed template with every reference filled. -/
+theorem scanAux_eq (before : Str → Str → Bool) (hb : LawfulBefore before) (vs : List (Str × Str)) (k : Nat) (t : Str) :
+    scanAux (sortBy before vs) k t = render idEsc ((parseAux (names vs) k t).map (fill vs)) := by
+  induction t generalizing k with
+  | nil => cases k <;> simp [scanAux, parseAux, render]
+  | cons c cs ih =>
+    cases k with
+    | succ k => simp only [scanAux, parseAux]; exact ih k
+    | zero =>
+      simp only [scanAux, parseAux]
+      by_cases hc : c = '@'
+      · subst hc
+        simp only [if_true, firstMatch_sortBy before hb]
+        cases hl : longest (names vs) cs with
+        | none =>
+          simp only [Option.bind_none, List.map_cons, fill, render_cons, Item.render, ih 0]
+          rfl
+        | some n =>
+          obtain ⟨v, hv⟩ := lookup_some_of_mem_names vs n (longest_some hl).1
+          simp only [Option.bind_some, hv, Option.map_some, List.map_cons, fill, render_cons, Item.render, ih n.length]
+      · simp only [if_neg hc, List.map_cons, fill, render_cons, Item.render, idEsc, ih 0]
+        rfl
 
 end Rio.Marker
